@@ -58,6 +58,12 @@ type zzvRec struct {
 	attempts  int
 	failsLeft int
 	failures  int
+	// armed >= 0: the next publish call hands pool value `armed` to the republisher from inside the publish
+	// function, just before it returns — a deterministic placement of "an Update arrives while a publish is
+	// in flight" (every state this reaches is reachable by a concurrent caller whose Update runs entirely
+	// while the run loop is inside the publish function)
+	armed int
+	rp    *Republisher
 }
 
 func (r *zzvRec) index(c cid.Cid) int {
@@ -70,6 +76,18 @@ func (r *zzvRec) index(c cid.Cid) int {
 }
 
 func (r *zzvRec) publish(ctx context.Context, c cid.Cid) error {
+	err := r.publish1(c)
+	r.mu.Lock()
+	v, rp := r.armed, r.rp
+	r.armed = -1
+	r.mu.Unlock()
+	if v >= 0 && rp != nil {
+		r.update(rp, v)
+	}
+	return err
+}
+
+func (r *zzvRec) publish1(c cid.Cid) error {
 	r.mu.Lock()
 	defer r.mu.Unlock()
 	r.attempts++
@@ -181,16 +199,21 @@ func HarnessC21Seq() {
 	V := verifrt.Param("V", 3)
 	tm := zzvTimingCfg(verifrt.NondetRange("timing", 0, verifrt.Param("T", 1)))
 
-	r := &zzvRec{failsLeft: F}
+	r := &zzvRec{failsLeft: F, armed: -1}
 	for i := range r.pool {
 		r.pool[i] = zzvCid(i)
 	}
 	rp := NewRepublisher(r.publish, tm.short, tm.long, r.pool[r.initial])
+	r.rp = rp
 
 	closed := false
 	nops := verifrt.NondetRange("nops", 1, K)
 	for i := 0; i < nops && !closed; i++ {
-		switch verifrt.NondetRange("op", 0, 5) {
+		switch verifrt.NondetRange("op", 0, 5+verifrt.Param("ARM", 1)) {
+		case 6: // the next publish call is overlapped by a hand-in of this value
+			r.mu.Lock()
+			r.armed = verifrt.NondetRange("val", 0, V-1)
+			r.mu.Unlock()
 		case 0: // hand in a value
 			r.update(rp, verifrt.NondetRange("val", 0, V-1))
 		case 1: // the republisher goroutine runs until it blocks; no time passes
@@ -220,7 +243,7 @@ func HarnessC21Seq() {
 		r.mu.Lock()
 		val, _ := r.lastPublished()
 		if nh > 0 {
-			verifrt.Assert("C21.close-publishes-pending", r.handed[nh-1] == val)
+			verifrt.Assert("C21.close-publishes-pending", zzvLatestFrom(r.handed, nh-1, val))
 		} else {
 			verifrt.Assert("C21.close-publishes-nothing-unasked", len(r.log) == 0)
 		}
@@ -259,6 +282,17 @@ func HarnessC21Seq() {
 	verifrt.Reach("end")
 }
 
+// zzvLatestFrom: val is the value of hand-in `from` or of a later one (a hand-in that overlapped the call
+// may legitimately be the published one).
+func zzvLatestFrom(handed []int, from, val int) bool {
+	for j := from; j < len(handed); j++ {
+		if handed[j] == val {
+			return true
+		}
+	}
+	return false
+}
+
 func zzvVals(log []zzvPubEntry) []int {
 	out := make([]int, 0, len(log))
 	for _, e := range log {
@@ -281,7 +315,7 @@ func zzvWaitPubChecked(r *zzvRec, rp *Republisher, tm zzvTiming) {
 	r.mu.Lock()
 	val, _ := r.lastPublished()
 	if nh > 0 {
-		verifrt.Assert("C21.waitpub-implies-published", r.handed[nh-1] == val)
+		verifrt.Assert("C21.waitpub-implies-published", zzvLatestFrom(r.handed, nh-1, val))
 	}
 	r.mu.Unlock()
 }
